@@ -613,6 +613,16 @@ func c08Exhaustive(tier string) []corr.Case {
 		}
 	}
 	flush()
+	// 3b. percent signs are ordinary characters of a name (decoding a URL is the HTTP server's business, before it asks the file system)
+	for _, n := range []string{"/%2e%2e/secret", "%2E%2E%2Fsecret", "/..%2fsecret", "/%2e%2e", "/%2e%2e/basement/secret", "/sub/%2e%2e/%2e%2e/secret", "/100%.txt", "/a%2Fb", "/%2fsecret", "/in.txt%00"} {
+		for _, root := range []string{"/base", "/base/", "/base/sub"} {
+			add("httppath " + corr.HexS(root) + " " + corr.HexS(n))
+			add(fmt.Sprintf("op http %s open %s", corr.HexS(root), corr.HexS(n)))
+			add("realpath " + corr.HexS(root) + " " + corr.HexS(n))
+			add(fmt.Sprintf("op bp %s open %s", corr.HexS(root), corr.HexS(n)))
+		}
+	}
+	flush()
 	// 4. the io/fs adapter over a BasePathFs on the operating system's file system: every entry point × escaping names
 	for _, l := range c08OSCases() {
 		add(l)
